@@ -33,6 +33,9 @@ pub fn cells(tier: Tier) -> Vec<CellPlan> {
     add(cells::three_clients("C01"), 0, 1, 3, 2.0);
     add(cells::vis_empty("C01", Vis::Whitelist), 1, 2, 4, 1.0);
     add(cells::vis_empty("C01", Vis::Blacklist), 1, 2, 4, 1.0);
+    add(cells::vis_despawns("C01", Vis::Blacklist), 0, 1, 2, 1.0);
+    add(cells::same_frame3("C01"), 1, 1, 2, 1.0);
+    add(cells::wrap("C01", 4), 1, 2, 4, 1.0);
     v
 }
 
